@@ -217,6 +217,12 @@ impl<'a> Gen<'a> {
         Gen { rng, cfg, vars: Vec::new(), fresh: 0, budget, objs: Vec::new(), in_super_ctx: 0 }
     }
 
+    /// Variables the surrounding text binds (name, type): the generated program may refer to them.
+    pub fn with_vars(mut self, vars: Vec<(String, Ty)>) -> Self {
+        self.vars.extend(vars);
+        self
+    }
+
     fn fresh(&mut self, p: &str) -> String {
         self.fresh += 1;
         format!("{p}{}", self.fresh)
